@@ -709,6 +709,12 @@ class Gen:
                 cond = L.fn("exists", self.nonterm(cond)) if cond["k"] != "term" else L.fn("yes")
             comps.insert(r.randint(0, len(comps)), L.err(self.href_any()))
             comps.insert(r.randint(1, len(comps)), r.choice([L.fn("skip", cond), L.when(cond, L.fn("skip")), L.fn("skip")]))
+        if "validity" in self.groups and r.random() < 0.3:
+            # the verdict as of the current line, recorded line by line next to whatever fails the file: valid() is true until the
+            # line on which the file fails, failed() from that line on
+            obs = r.choice([L.fn("push", L.term("vs"), L.fn(r.choice(["valid", "valid", "failed"]))),
+                            L.assign(L.var(self.fresh("x")), L.fn(r.choice(["valid", "valid", "failed"])))])
+            comps.insert(r.randint(0, len(comps)), obs)
         num_e = self.cols({"numE"}, strict=True)
         if num_e and r.random() < 0.3:
             # the running total of a column with empty cells, observed as a value on every line (see stateful(): sum_e)
